@@ -145,4 +145,740 @@ theorem rewatch_keeps_first (c : Ctx) (s : State) (conn ref : Nat) (k : Bytes) (
     exact ⟨(ref, k, id₀), h, by simp⟩
   simp [runCmd, hany]
 
+
+/-! ## every command, every history
+
+  The theorems above are about the single mutators. What follows carries them to every command of
+  the model, then to every history of commands, and ends with the statement EXEC's check is there
+  for: it aborts exactly when the watched key was touched (`exec_aborts_iff_watched_key_touched`). -/
+
+set_option linter.unusedSectionVars false
+
+/-- from `db` to `db'` every key is as it was, or carries a version handed out since, or is gone -/
+structure VStep (db db' : Db) : Prop where
+  mono : db.nextId ≤ db'.nextId
+  keys : ∀ k, db'.raw k = db.raw k ∨
+              (∃ e, db'.raw k = some e ∧ db.nextId < e.id ∧ e.id ≤ db'.nextId) ∨
+              (db'.raw k = none)
+
+theorem vstep_refl (db : Db) : VStep db db := ⟨Nat.le_refl _, fun _ => Or.inl rfl⟩
+
+theorem vstep_trans {a b d : Db} (h1 : VStep a b) (h2 : VStep b d) : VStep a d := by
+  refine ⟨Nat.le_trans h1.mono h2.mono, ?_⟩
+  intro k
+  rcases h2.keys k with e2 | ⟨e, he, hlt, hle⟩ | e2
+  · rcases h1.keys k with e1 | ⟨e, he, hlt, hle⟩ | e1
+    · exact Or.inl (e2.trans e1)
+    · exact Or.inr (Or.inl ⟨e, e2.trans he, hlt, Nat.le_trans hle h2.mono⟩)
+    · exact Or.inr (Or.inr (e2.trans e1))
+  · exact Or.inr (Or.inl ⟨e, he, Nat.lt_of_le_of_lt h1.mono hlt, hle⟩)
+  · exact Or.inr (Or.inr e2)
+
+theorem raw_put_self (db : Db) (k : Bytes) (v : Val) (e : Option Int) :
+    (db.put k v e).raw k = some { val := v, exp := e, id := db.nextId + 1 } := by
+  simp [Db.put, Db.raw]
+
+theorem raw_put_ne (db : Db) (k k' : Bytes) (v : Val) (e : Option Int) (h : (k == k') = false) :
+    (db.put k v e).raw k' = db.raw k' := by
+  simp only [Db.put, Db.raw]; exact alookup_ainsert_ne k k' _ db.keys h
+
+theorem vstep_put0 (db : Db) (k : Bytes) (v : Val) (e : Option Int) : VStep db (db.put k v e) := by
+  refine ⟨by simp [Db.put], ?_⟩
+  intro k'
+  by_cases h : (k == k') = true
+  · have : k = k' := by simpa using h
+    subst this
+    exact Or.inr (Or.inl ⟨_, raw_put_self db k v e, by simp, by simp [Db.put]⟩)
+  · exact Or.inl (raw_put_ne db k k' v e (by simpa using h))
+
+theorem vstep_put {db db0 : Db} (h : VStep db db0) (k : Bytes) (v : Val) (e : Option Int) : VStep db (db0.put k v e) :=
+  vstep_trans h (vstep_put0 db0 k v e)
+
+
+theorem vstep_setDirty {db db0 : Db} (h : VStep db db0) : VStep db db0.setDirty :=
+  ⟨h.mono, h.keys⟩
+
+theorem raw_del_self (db : Db) (k : Bytes) (hu : (db.keys.map (·.1)).Nodup) : (db.del k).raw k = none := by
+  unfold Db.del
+  cases hr : db.raw k with
+  | none => exact hr
+  | some e => simp only [Db.raw]; exact alookup_aerase_self_of_unique k db.keys hu
+
+theorem raw_del_ne' (db : Db) (k k' : Bytes) (h : (k == k') = false) : (db.del k).raw k' = db.raw k' := by
+  unfold Db.del
+  cases hr : db.raw k with
+  | none => rfl
+  | some e => simp only [Db.raw]; exact alookup_aerase_ne k k' db.keys h
+
+/-- unique keys: part of the database invariant of C06, needed to know that a deleted key is gone -/
+def Db.Uniq (db : Db) : Prop := (db.keys.map (·.1)).Nodup
+
+theorem vstep_del0 (db : Db) (k : Bytes) (hu : db.Uniq) : VStep db (db.del k) := by
+  refine ⟨by unfold Db.del; split <;> simp, ?_⟩
+  intro k'
+  by_cases h : (k == k') = true
+  · have : k = k' := by simpa using h
+    subst this
+    exact Or.inr (Or.inr (raw_del_self db k hu))
+  · exact Or.inl (raw_del_ne' db k k' (by simpa using h))
+
+theorem bump_spec (c : Ctx) (db : Db) (e : Entry) (hq : c.q.inplaceKeepsVersion = false) :
+    (bump c db e).1 = { db with nextId := db.nextId + 1 } ∧ (bump c db e).2 = { e with id := db.nextId + 1 } := by
+  unfold bump; simp [hq]
+
+theorem raw_poke_self (db : Db) (k : Bytes) (e : Entry) : (db.poke k e).raw k = some e := by
+  simp [Db.poke, Db.raw]
+
+theorem raw_poke_ne' (db : Db) (k k' : Bytes) (e : Entry) (h : (k == k') = false) : (db.poke k e).raw k' = db.raw k' := by
+  simp only [Db.poke, Db.raw]; exact alookup_ainsert_ne k k' e db.keys h
+
+/-- a value changed in place under a fresh version -/
+theorem vstep_poke_fresh0 (db : Db) (k : Bytes) (e : Entry) (n : Nat) (hn : db.nextId < n) (he : e.id = n) :
+    VStep db ({ db with nextId := n }.poke k e) := by
+  refine ⟨by simp [Db.poke]; omega, ?_⟩
+  intro k'
+  by_cases h : (k == k') = true
+  · have : k = k' := by simpa using h
+    subst this
+    refine Or.inr (Or.inl ⟨e, raw_poke_self _ k e, by omega, by simp [Db.poke, he]⟩)
+  · exact Or.inl (by rw [raw_poke_ne' _ k k' e (by simpa using h)]; rfl)
+
+
+/-- the relation the commands are proved to respect: versions move as `VStep` says and keys stay unique -/
+structure VS (db db' : Db) : Prop where
+  step : VStep db db'
+  uniq : db'.Uniq
+
+theorem vs_refl (db : Db) (hu : db.Uniq) : VS db db := ⟨vstep_refl db, hu⟩
+
+theorem vs_put {db db0 : Db} (h : VS db db0) (k : Bytes) (v : Val) (e : Option Int) : VS db (db0.put k v e) :=
+  ⟨vstep_put h.step k v e, by simp only [Db.Uniq, Db.put]; exact ainsert_keys_nodup k _ db0.keys h.uniq⟩
+
+theorem vs_setDirty {db db0 : Db} (h : VS db db0) : VS db db0.setDirty := ⟨vstep_setDirty h.step, h.uniq⟩
+
+theorem uniq_del (db : Db) (k : Bytes) (hu : db.Uniq) : (db.del k).Uniq := by
+  unfold Db.del
+  split
+  · simp only [Db.Uniq]; exact aerase_keys_nodup k db.keys hu
+  · exact hu
+
+theorem vs_del {db db0 : Db} (h : VS db db0) (k : Bytes) : VS db (db0.del k) :=
+  ⟨vstep_trans h.step (vstep_del0 db0 k h.uniq), uniq_del db0 k h.uniq⟩
+
+theorem vs_dirtyUnlessQuirk {db db0 : Db} (c : Ctx) (h : VS db db0) : VS db (dirtyUnlessQuirk c db0) := by
+  unfold dirtyUnlessQuirk; split
+  · exact h
+  · exact vs_setDirty h
+
+theorem uniq_poke (db : Db) (k : Bytes) (e : Entry) (hu : db.Uniq) : (db.poke k e).Uniq := by
+  simp only [Db.Uniq, Db.poke]; exact ainsert_keys_nodup k e db.keys hu
+
+/-- a value changed in place after `bump` handed out a fresh version -/
+theorem vs_poke_bump {db db0 db1 : Db} (c : Ctx) (h : VS db db0) (hq : c.q.inplaceKeepsVersion = false)
+    (e0 e1 e' : Entry) (k : Bytes) (hb : bump c db0 e0 = (db1, e1)) (he : e'.id = e1.id) : VS db (db1.poke k e') := by
+  obtain ⟨h1, h2⟩ := bump_spec c db0 e0 hq
+  rw [hb] at h1 h2
+  simp only at h1 h2
+  subst h1
+  have hid : e'.id = db0.nextId + 1 := by rw [he, h2]
+  refine ⟨vstep_trans h.step (vstep_poke_fresh0 db0 k e' (db0.nextId + 1) (by omega) hid), ?_⟩
+  exact uniq_poke _ k e' h.uniq
+
+theorem ite_vs {db a b : Db} (p : Prop) [Decidable p] (ha : VS db a) (hb : VS db b) : VS db (if p then a else b) := by
+  split <;> assumption
+
+theorem vs_upd {db db0 : Db} (c : Ctx) (h : VS db db0) (hq : c.q.inplaceKeepsVersion = false)
+    (k : Bytes) (e : Entry) (v : Val) : VS db (upd c db0 k e v) := by
+  obtain ⟨h1, h2⟩ := bump_spec c db0 e hq
+  unfold upd
+  cases hb : bump c db0 e with
+  | mk db1 e1 =>
+    rw [hb] at h1 h2
+    simp only at h1 h2 ⊢
+    have hv : VS db db1 := by
+      subst h1
+      exact ⟨vstep_trans h.step ⟨by simp, fun k' => Or.inl rfl⟩, h.uniq⟩
+    unfold Db.update
+    simp only
+    refine ite_vs _ ?_ ?_
+    · exact vs_setDirty (vs_del hv k)
+    · exact vs_setDirty (vs_poke_bump c h hq e e1 ⟨v, e1.exp, e1.id⟩ k hb rfl)
+
+
+theorem vs_poke_bump_proj {db db0 : Db} (c : Ctx) (h : VS db db0) (hq : c.q.inplaceKeepsVersion = false)
+    (e0 e' : Entry) (k : Bytes) (he : e'.id = (bump c db0 e0).2.id) : VS db ((bump c db0 e0).1.poke k e') :=
+  vs_poke_bump c h hq e0 (bump c db0 e0).2 e' k rfl he
+
+attribute [local irreducible] bump
+
+theorem setKey_vs (c : Ctx) (db : Db) (k v : Bytes) (o : SetOpts) (a b : Bool) (hdb : db.Uniq) :
+    VS db (setKey c db k v o a b).1 := by
+  unfold setKey
+  repeat' (first | exact vs_refl _ hdb | exact vs_put (vs_refl _ hdb) _ _ _ | split | dsimp only)
+
+theorem putAll_vs (kvs : List (Bytes × Bytes)) : ∀ (db0 db : Db), VS db0 db → VS db0 (putAll db kvs) := by
+  induction kvs with
+  | nil => intro db0 db h; exact h
+  | cons p r ih =>
+    intro db0 db h
+    obtain ⟨k, v⟩ := p
+    unfold putAll
+    exact ih db0 _ (vs_put h _ _ _)
+
+macro "versioned" : tactic => `(tactic| (repeat' (first
+  | (exact vs_refl _ (by assumption))
+  | assumption
+  | (refine vs_put ?_ _ _ _)
+  | (refine vs_setDirty ?_)
+  | (refine vs_del ?_ _)
+  | (refine vs_upd _ ?_ (by assumption) _ _ _)
+  | (refine vs_dirtyUnlessQuirk _ ?_)
+  | (exact setKey_vs _ _ _ _ _ _ _ (by assumption))
+  | (refine putAll_vs _ _ _ ?_)
+  | (refine vs_poke_bump _ ?_ (by assumption) _ _ _ _ (by assumption) (by rfl))
+  | (refine vs_poke_bump_proj _ ?_ (by assumption) _ _ _ rfl)
+  | split
+  | dsimp only [R.ok])))
+
+section
+variable (c : Ctx) (db : Db) (k k2 v f m : Bytes) (i j : Int) (o : SetOpts) (b b2 : Bool)
+  (ks : List Bytes) (kvs : List (Bytes × Bytes)) (oi oj ok' : Option Int) (n : Nat)
+  (hq : c.q.inplaceKeepsVersion = false) (hu : c.q.unlinkKeepsObject = false) (hdb : db.Uniq)
+include hq hu hdb
+
+theorem set_vs : VS db (cmdSet c db k v o b).db := by unfold cmdSet; versioned
+theorem append_vs : VS db (cmdAppend c db k v).db := by
+  unfold cmdAppend
+  have h := setKey_vs c db k v { get := true } true (!c.q.appendDropsTtl) hdb
+  split
+  rename_i heq
+  rw [heq] at h
+  split
+  · exact vs_refl _ hdb
+  · exact h
+theorem get_vs : VS db (cmdGet c db k).db := by unfold cmdGet; versioned
+theorem getdel_vs : VS db (cmdGetDel c db k).db := by unfold cmdGetDel; versioned
+theorem getex_vs (e : Option ExpArg) : VS db (cmdGetEx c db k e).db := by unfold cmdGetEx; versioned
+theorem strlen_vs : VS db (cmdStrlen c db k).db := by unfold cmdStrlen; versioned
+theorem getrange_vs : VS db (cmdGetRange c db k i j).db := by unfold cmdGetRange; versioned
+theorem setrange_vs : VS db (cmdSetRange c db k i v).db := by unfold cmdSetRange; versioned
+theorem incrby_vs : VS db (cmdIncrBy c db k i).db := by unfold cmdIncrBy; versioned
+theorem decrby_vs : VS db (cmdDecrBy c db k i).db := by
+  unfold cmdDecrBy
+  split
+  · exact vs_refl _ hdb
+  · exact incrby_vs (c := c) (db := db) (k := k) (hq := hq) (hu := hu) (hdb := hdb) _
+theorem mget_vs : VS db (cmdMGet c db ks).db := by unfold cmdMGet; versioned
+theorem mset_vs : VS db (cmdMSet c db kvs b).db := by unfold cmdMSet; versioned
+theorem incrbyfloat_vs : VS db (cmdIncrByFloat c db k v).db := by unfold cmdIncrByFloat; versioned
+theorem push_vs : VS db (cmdPush c db k ks b b2).db := by unfold cmdPush; versioned
+theorem pop_vs : VS db (cmdPop c db k oi b).db := by
+  have go : ∀ n multi, VS db (cmdPop.go c db k b n multi).db := by
+    intro n multi
+    unfold cmdPop.go
+    versioned
+  unfold cmdPop
+  split
+  · split
+    · exact vs_refl _ hdb
+    · exact go _ _
+  · exact go _ _
+theorem llen_vs : VS db (cmdLLen c db k).db := by unfold cmdLLen; versioned
+theorem lindex_vs : VS db (cmdLIndex c db k i).db := by unfold cmdLIndex; versioned
+theorem lrange_vs : VS db (cmdLRange c db k i j).db := by unfold cmdLRange; versioned
+theorem lset_vs : VS db (cmdLSet c db k i v).db := by unfold cmdLSet; versioned
+theorem linsert_vs : VS db (cmdLInsert c db k b v m).db := by unfold cmdLInsert; versioned
+theorem lrem_vs : VS db (cmdLRem c db k i v).db := by unfold cmdLRem; versioned
+theorem ltrim_vs : VS db (cmdLTrim c db k i j).db := by unfold cmdLTrim; versioned
+theorem lpos_vs : VS db (cmdLPos c db k v oi oj ok').db := by unfold cmdLPos; versioned
+theorem hset_vs : VS db (cmdHSet c db k kvs b b2).db := by unfold cmdHSet; versioned
+theorem hget_vs : VS db (cmdHGet c db k f).db := by unfold cmdHGet; versioned
+theorem hmget_vs : VS db (cmdHMGet c db k ks).db := by unfold cmdHMGet; versioned
+theorem hgetall_vs : VS db (cmdHGetAll c db k).db := by unfold cmdHGetAll; versioned
+theorem hkeys_vs : VS db (cmdHKeys c db k b).db := by unfold cmdHKeys; versioned
+theorem hlen_vs : VS db (cmdHLen c db k).db := by unfold cmdHLen; versioned
+theorem hexists_vs : VS db (cmdHExists c db k f).db := by unfold cmdHExists; versioned
+theorem hstrlen_vs : VS db (cmdHStrlen c db k f).db := by unfold cmdHStrlen; versioned
+theorem hdel_vs : VS db (cmdHDel c db k ks).db := by unfold cmdHDel; versioned
+theorem hincrby_vs : VS db (cmdHIncrBy c db k f i).db := by unfold cmdHIncrBy; versioned
+theorem hincrbyfloat_vs : VS db (cmdHIncrByFloat c db k f v).db := by unfold cmdHIncrByFloat; versioned
+theorem sadd_vs : VS db (cmdSAdd c db k ks).db := by unfold cmdSAdd; versioned
+theorem srem_vs : VS db (cmdSRem c db k ks).db := by unfold cmdSRem; versioned
+theorem scard_vs : VS db (cmdSCard c db k).db := by unfold cmdSCard; versioned
+theorem sismember_vs : VS db (cmdSIsMember c db k m).db := by unfold cmdSIsMember; versioned
+theorem smismember_vs : VS db (cmdSMIsMember c db k ks).db := by unfold cmdSMIsMember; versioned
+theorem smembers_vs : VS db (cmdSMembers c db k).db := by unfold cmdSMembers; versioned
+theorem smove_vs : VS db (cmdSMove c db k k2 m).db := by unfold cmdSMove; versioned
+theorem setalgebra_vs (op : SetOp) : VS db (cmdSetAlgebra c db op ks).db := by unfold cmdSetAlgebra; versioned
+theorem setalgebrastore_vs (op : SetOp) : VS db (cmdSetAlgebraStore c db op k ks).db := by unfold cmdSetAlgebraStore; versioned
+theorem sintercard_vs : VS db (cmdSInterCard c db i ks j).db := by unfold cmdSInterCard; versioned
+theorem del_vs : VS db (cmdDel c db ks b).db := by
+  unfold cmdDel
+  simp only [hu, Bool.not_false, Bool.or_true, if_true]
+  have key : ∀ (ks : List Bytes) (acc : Db × Nat), VS db acc.1 →
+      VS db (ks.foldl (fun (acc : Db × Nat) (k : Bytes) =>
+        match acc.1.live c.now k with
+        | some _ => (acc.1.del k, acc.2 + 1)
+        | none => if b = true then (acc.1.del k, acc.2) else (acc.1, acc.2)) acc).1 := by
+    intro ks
+    induction ks with
+    | nil => intro acc h; exact h
+    | cons x r ih =>
+      intro acc h
+      simp only [List.foldl_cons]
+      apply ih
+      split
+      · exact vs_del h _
+      · split
+        · exact vs_del h _
+        · exact h
+  exact key ks (db, 0) (vs_refl _ hdb)
+theorem exists_vs : VS db (cmdExists c db ks).db := by unfold cmdExists; versioned
+theorem type_vs : VS db (cmdType c db k).db := by unfold cmdType; versioned
+theorem rename_vs : VS db (cmdRename c db k k2 b).db := by unfold cmdRename; versioned
+theorem copy_vs : VS db (cmdCopy c db k k2 b).db := by unfold cmdCopy; versioned
+theorem expireat_vs (opt : ExpireOpt) : VS db (cmdExpireAt c db k i opt).db := by unfold cmdExpireAt; versioned
+theorem persist_vs : VS db (cmdPersist c db k).db := by unfold cmdPersist; versioned
+theorem ttl_vs (kind : TtlKind) : VS db (cmdTtl c db k kind).db := by unfold cmdTtl; versioned
+theorem getbit_vs : VS db (cmdGetBit c db k i).db := by unfold cmdGetBit; versioned
+theorem bitpos_vs (st : Option Int) (en : Option (Int × Bool)) : VS db (cmdBitPos c db k i st en).db := by unfold cmdBitPos; versioned
+theorem bitop_vs : VS db (cmdBitOp c db k k2 ks).db := by unfold cmdBitOp; versioned
+theorem bitfieldParsed_vs (ps : List BfParsed) : VS db (cmdBitfieldParsed c db k ps).db := by unfold cmdBitfieldParsed; versioned
+theorem bitfield_vs (ops : List BfOp) : VS db (cmdBitfield c db k ops).db := by
+  unfold cmdBitfield
+  split
+  · exact vs_refl _ hdb
+  · exact bitfieldParsed_vs (c := c) (db := db) (k := k) (hq := hq) (hu := hu) (hdb := hdb) _
+theorem setbit_vs : VS db (cmdSetBit c db k i j).db := by
+  unfold cmdSetBit
+  split
+  · exact vs_refl _ hdb
+  · split
+    · exact vs_refl _ hdb
+    · have h := bitfieldParsed_vs (c := c) (db := db) (k := k) (hq := hq) (hu := hu) (hdb := hdb) [{ kind := .set, signed := false, width := 1, off := i, value := j, ov := .wrap }]
+      dsimp only
+      split <;> exact h
+theorem bitcount_vs (r : Option (Int × Int × Bool)) : VS db (cmdBitCount c db k r).db := by
+  unfold cmdBitCount
+  split
+  · exact vs_refl _ hdb
+  · split_ifs <;> first
+      | exact vs_refl _ hdb
+      | (extract_lets; split_ifs <;> exact vs_refl _ hdb)
+  · exact vs_refl _ hdb
+
+theorem lmove_vs : VS db (cmdLMove c db k k2 b b2).db := by
+  unfold cmdLMove
+  versioned
+
+theorem lmpop_vs : VS db (cmdLMPop c db ks b n).db := by
+  have go : ∀ ks, VS db (cmdLMPop.go c db b n ks).db := by
+    intro ks
+    induction ks with
+    | nil => exact vs_refl _ hdb
+    | cons x r ih =>
+      unfold cmdLMPop.go
+      split
+      · exact vs_refl _ hdb
+      · exact ih
+      · split
+        · exact ih
+        · dsimp only [R.ok]; exact vs_upd _ (vs_refl _ hdb) hq _ _ _
+  unfold cmdLMPop
+  exact go ks
+
+theorem bpop_vs : VS db (runCmd.go c b db ks).db := by
+  induction ks with
+  | nil => exact vs_refl _ hdb
+  | cons x r ih =>
+    unfold runCmd.go
+    split
+    · exact vs_refl _ hdb
+    · exact ih
+    · split
+      · exact ih
+      · dsimp only [R.ok]; exact vs_upd _ (vs_refl _ hdb) hq _ _ _
+
+theorem sortFinish_vs (store : Option Bytes) (out : List Value) (hint : Match) :
+    VS db (sortFinish db store out hint).db := by
+  unfold sortFinish
+  split
+  · exact vs_refl _ hdb
+  · split
+    · exact vs_del (vs_refl _ hdb) _
+    · exact vs_put (vs_del (vs_refl _ hdb) _) _ _ _
+
+theorem sort_vs (by_ : Option Bytes) (limit : Option (Int × Int)) (gets : List Bytes) (store : Option Bytes) :
+    VS db (cmdSort c db k by_ limit gets b b2 store).db := by
+  unfold cmdSort
+  split
+  · exact vs_refl _ hdb
+  · exact sortFinish_vs (db := db) (hq := hq) (hu := hu) (hdb := hdb) (c := c) _ _ _
+  · split
+    · exact vs_refl _ hdb
+    · exact sortFinish_vs (db := db) (hq := hq) (hu := hu) (hdb := hdb) (c := c) _ _ _
+end
+
+
+
+/-! ### from one database to the whole state -/
+
+/-- every database of the server keeps unique keys -/
+def State.Uniq (s : State) : Prop := ∀ r, (s.getDb r).Uniq
+
+/-- every database of the server moved as `VS` allows -/
+def AllVS (s s' : State) : Prop := ∀ r, VS (s.getDb r) (s'.getDb r)
+
+theorem allvs_refl (s : State) (hs : s.Uniq) : AllVS s s := fun r => vs_refl _ (hs r)
+
+theorem allvs_of_getDb_eq (s s' : State) (hs : s.Uniq) (h : ∀ r, s'.getDb r = s.getDb r) : AllVS s s' := by
+  intro r; rw [h r]; exact vs_refl _ (hs r)
+
+theorem getDb_setSession (s : State) (c : Nat) (x : Session) (r : Nat) : (s.setSession c x).getDb r = s.getDb r := by
+  simp [State.getDb]
+
+theorem getDb_tableRef (s : State) (i r : Nat) : (s.tableRef i).1.getDb r = s.getDb r := by
+  unfold State.tableRef
+  split
+  · rfl
+  · simp only [State.getDb, List.find?_append]
+    cases h : List.find? (fun x => x.1 == r) s.heap with
+    | some p => simp
+    | none =>
+      simp only [Option.none_or, Option.map_none, Option.getD_none]
+      simp only [List.find?_cons, List.find?_nil]
+      split <;> rfl
+
+theorem onDb_allvs (s : State) (ref : Nat) (f : Db → R) (hs : s.Uniq) (h : VS (s.getDb ref) (f (s.getDb ref)).db) :
+    AllVS s (onDb s ref f).st := by
+  intro r
+  unfold onDb
+  by_cases e : (ref == r) = true
+  · have : ref = r := by simpa using e
+    subst this
+    simp only [getDb_setDb_self]
+    exact h
+  · simp only [getDb_setDb_ne _ _ _ _ (by simpa using e)]
+    exact vs_refl _ (hs r)
+
+/-- what FLUSHDB / FLUSHALL leave of a database: nothing but its version counter -/
+def flushed (d : Db) : Db := { keys := [], nextId := d.nextId, dirty := false }
+
+theorem vs_flushed (d : Db) : VS d (flushed d) :=
+  ⟨⟨Nat.le_refl _, fun _ => Or.inr (Or.inr rfl)⟩, by simp [Db.Uniq, flushed]⟩
+
+theorem find_map_flushed (heap : List (Nat × Db)) (r : Nat) :
+    (heap.map fun (p : Nat × Db) => (p.1, flushed p.2)).find? (·.1 == r) = (heap.find? (·.1 == r)).map fun p => (p.1, flushed p.2) := by
+  induction heap with
+  | nil => rfl
+  | cons p t ih =>
+    simp only [List.map_cons, List.find?_cons]
+    split
+    · rfl
+    · exact ih
+
+theorem getDb_flushall (s : State) (r : Nat) :
+    ({ s with heap := s.heap.map fun (p : Nat × Db) => (p.1, flushed p.2) } : State).getDb r = flushed (s.getDb r) := by
+  simp only [State.getDb, find_map_flushed]
+  cases List.find? (fun x => x.1 == r) s.heap with
+  | some p => rfl
+  | none => rfl
+
+/-- **Every command gives every key it changes a new version.** Whatever the command — data or
+    session, any arguments, any database contents — each database of the server afterwards relates to
+    what it was before as `VStep` says: a key's stored object is the very same, or it carries a version
+    handed out by this command, or the key is gone; and keys stay unique. -/
+theorem runCmd_versions (c : Ctx) (s : State) (conn ref : Nat) (m : Bool) (cmd : Cmd)
+    (hq : c.q.inplaceKeepsVersion = false) (hu : c.q.unlinkKeepsObject = false) (hf : c.q.flushDetaches = false)
+    (hs : s.Uniq) : AllVS s (runCmd c s conn ref m cmd).st := by
+  cases cmd
+  case copy a b rep dbOpt =>
+    simp only [runCmd]
+    split
+    · exact allvs_refl s hs
+    · exact onDb_allvs s ref _ hs (copy_vs (c := c) (hq := hq) (hu := hu) (hdb := hs ref) _ _ _ _)
+  case lmpop nk ks l cnt =>
+    simp only [runCmd]
+    split
+    · exact allvs_refl s hs
+    · split
+      · exact allvs_refl s hs
+      · exact onDb_allvs s ref _ hs (lmpop_vs (c := c) (hq := hq) (hu := hu) (hdb := hs ref) _ _ _ _)
+  case set a0 a1 a2 a3 => simp only [runCmd]; exact onDb_allvs s ref _ hs (set_vs (c := c) (hq := hq) (hu := hu) (hdb := hs ref) ..)
+  case append a0 a1 => simp only [runCmd]; exact onDb_allvs s ref _ hs (append_vs (c := c) (hq := hq) (hu := hu) (hdb := hs ref) ..)
+  case get a0 => simp only [runCmd]; exact onDb_allvs s ref _ hs (get_vs (c := c) (hq := hq) (hu := hu) (hdb := hs ref) ..)
+  case getdel a0 => simp only [runCmd]; exact onDb_allvs s ref _ hs (getdel_vs (c := c) (hq := hq) (hu := hu) (hdb := hs ref) ..)
+  case getex a0 a1 => simp only [runCmd]; exact onDb_allvs s ref _ hs (getex_vs (c := c) (hq := hq) (hu := hu) (hdb := hs ref) ..)
+  case strlen a0 => simp only [runCmd]; exact onDb_allvs s ref _ hs (strlen_vs (c := c) (hq := hq) (hu := hu) (hdb := hs ref) ..)
+  case getrange a0 a1 a2 => simp only [runCmd]; exact onDb_allvs s ref _ hs (getrange_vs (c := c) (hq := hq) (hu := hu) (hdb := hs ref) ..)
+  case setrange a0 a1 a2 => simp only [runCmd]; exact onDb_allvs s ref _ hs (setrange_vs (c := c) (hq := hq) (hu := hu) (hdb := hs ref) ..)
+  case incrby a0 a1 => simp only [runCmd]; exact onDb_allvs s ref _ hs (incrby_vs (c := c) (hq := hq) (hu := hu) (hdb := hs ref) ..)
+  case decrby a0 a1 => simp only [runCmd]; exact onDb_allvs s ref _ hs (decrby_vs (c := c) (hq := hq) (hu := hu) (hdb := hs ref) ..)
+  case incrbyfloat a0 a1 => simp only [runCmd]; exact onDb_allvs s ref _ hs (incrbyfloat_vs (c := c) (hq := hq) (hu := hu) (hdb := hs ref) ..)
+  case mget a0 => simp only [runCmd]; exact onDb_allvs s ref _ hs (mget_vs (c := c) (hq := hq) (hu := hu) (hdb := hs ref) ..)
+  case mset a0 a1 => simp only [runCmd]; exact onDb_allvs s ref _ hs (mset_vs (c := c) (hq := hq) (hu := hu) (hdb := hs ref) ..)
+  case push a0 a1 a2 a3 => simp only [runCmd]; exact onDb_allvs s ref _ hs (push_vs (c := c) (hq := hq) (hu := hu) (hdb := hs ref) ..)
+  case pop a0 a1 a2 => simp only [runCmd]; exact onDb_allvs s ref _ hs (pop_vs (c := c) (hq := hq) (hu := hu) (hdb := hs ref) ..)
+  case llen a0 => simp only [runCmd]; exact onDb_allvs s ref _ hs (llen_vs (c := c) (hq := hq) (hu := hu) (hdb := hs ref) ..)
+  case lindex a0 a1 => simp only [runCmd]; exact onDb_allvs s ref _ hs (lindex_vs (c := c) (hq := hq) (hu := hu) (hdb := hs ref) ..)
+  case lrange a0 a1 a2 => simp only [runCmd]; exact onDb_allvs s ref _ hs (lrange_vs (c := c) (hq := hq) (hu := hu) (hdb := hs ref) ..)
+  case lset a0 a1 a2 => simp only [runCmd]; exact onDb_allvs s ref _ hs (lset_vs (c := c) (hq := hq) (hu := hu) (hdb := hs ref) ..)
+  case linsert a0 a1 a2 a3 => simp only [runCmd]; exact onDb_allvs s ref _ hs (linsert_vs (c := c) (hq := hq) (hu := hu) (hdb := hs ref) ..)
+  case lrem a0 a1 a2 => simp only [runCmd]; exact onDb_allvs s ref _ hs (lrem_vs (c := c) (hq := hq) (hu := hu) (hdb := hs ref) ..)
+  case ltrim a0 a1 a2 => simp only [runCmd]; exact onDb_allvs s ref _ hs (ltrim_vs (c := c) (hq := hq) (hu := hu) (hdb := hs ref) ..)
+  case lpos a0 a1 a2 a3 a4 => simp only [runCmd]; exact onDb_allvs s ref _ hs (lpos_vs (c := c) (hq := hq) (hu := hu) (hdb := hs ref) ..)
+  case lmove a0 a1 a2 a3 => simp only [runCmd]; exact onDb_allvs s ref _ hs (lmove_vs (c := c) (hq := hq) (hu := hu) (hdb := hs ref) ..)
+  case hset a0 a1 a2 a3 => simp only [runCmd]; exact onDb_allvs s ref _ hs (hset_vs (c := c) (hq := hq) (hu := hu) (hdb := hs ref) ..)
+  case hget a0 a1 => simp only [runCmd]; exact onDb_allvs s ref _ hs (hget_vs (c := c) (hq := hq) (hu := hu) (hdb := hs ref) ..)
+  case hmget a0 a1 => simp only [runCmd]; exact onDb_allvs s ref _ hs (hmget_vs (c := c) (hq := hq) (hu := hu) (hdb := hs ref) ..)
+  case hgetall a0 => simp only [runCmd]; exact onDb_allvs s ref _ hs (hgetall_vs (c := c) (hq := hq) (hu := hu) (hdb := hs ref) ..)
+  case hkeys a0 a1 => simp only [runCmd]; exact onDb_allvs s ref _ hs (hkeys_vs (c := c) (hq := hq) (hu := hu) (hdb := hs ref) ..)
+  case hlen a0 => simp only [runCmd]; exact onDb_allvs s ref _ hs (hlen_vs (c := c) (hq := hq) (hu := hu) (hdb := hs ref) ..)
+  case hexists a0 a1 => simp only [runCmd]; exact onDb_allvs s ref _ hs (hexists_vs (c := c) (hq := hq) (hu := hu) (hdb := hs ref) ..)
+  case hstrlen a0 a1 => simp only [runCmd]; exact onDb_allvs s ref _ hs (hstrlen_vs (c := c) (hq := hq) (hu := hu) (hdb := hs ref) ..)
+  case hdel a0 a1 => simp only [runCmd]; exact onDb_allvs s ref _ hs (hdel_vs (c := c) (hq := hq) (hu := hu) (hdb := hs ref) ..)
+  case hincrby a0 a1 a2 => simp only [runCmd]; exact onDb_allvs s ref _ hs (hincrby_vs (c := c) (hq := hq) (hu := hu) (hdb := hs ref) ..)
+  case hincrbyfloat a0 a1 a2 => simp only [runCmd]; exact onDb_allvs s ref _ hs (hincrbyfloat_vs (c := c) (hq := hq) (hu := hu) (hdb := hs ref) ..)
+  case sadd a0 a1 => simp only [runCmd]; exact onDb_allvs s ref _ hs (sadd_vs (c := c) (hq := hq) (hu := hu) (hdb := hs ref) ..)
+  case srem a0 a1 => simp only [runCmd]; exact onDb_allvs s ref _ hs (srem_vs (c := c) (hq := hq) (hu := hu) (hdb := hs ref) ..)
+  case scard a0 => simp only [runCmd]; exact onDb_allvs s ref _ hs (scard_vs (c := c) (hq := hq) (hu := hu) (hdb := hs ref) ..)
+  case sismember a0 a1 => simp only [runCmd]; exact onDb_allvs s ref _ hs (sismember_vs (c := c) (hq := hq) (hu := hu) (hdb := hs ref) ..)
+  case smismember a0 a1 => simp only [runCmd]; exact onDb_allvs s ref _ hs (smismember_vs (c := c) (hq := hq) (hu := hu) (hdb := hs ref) ..)
+  case smembers a0 => simp only [runCmd]; exact onDb_allvs s ref _ hs (smembers_vs (c := c) (hq := hq) (hu := hu) (hdb := hs ref) ..)
+  case smove a0 a1 a2 => simp only [runCmd]; exact onDb_allvs s ref _ hs (smove_vs (c := c) (hq := hq) (hu := hu) (hdb := hs ref) ..)
+  case salg a0 a1 => simp only [runCmd]; exact onDb_allvs s ref _ hs (setalgebra_vs (c := c) (hq := hq) (hu := hu) (hdb := hs ref) ..)
+  case salgStore a0 a1 a2 => simp only [runCmd]; exact onDb_allvs s ref _ hs (setalgebrastore_vs (c := c) (hq := hq) (hu := hu) (hdb := hs ref) ..)
+  case sintercard a0 a1 a2 => simp only [runCmd]; exact onDb_allvs s ref _ hs (sintercard_vs (c := c) (hq := hq) (hu := hu) (hdb := hs ref) ..)
+  case del a0 a1 => simp only [runCmd]; exact onDb_allvs s ref _ hs (del_vs (c := c) (hq := hq) (hu := hu) (hdb := hs ref) ..)
+  case exists_ a0 => simp only [runCmd]; exact onDb_allvs s ref _ hs (exists_vs (c := c) (hq := hq) (hu := hu) (hdb := hs ref) ..)
+  case touch a0 => simp only [runCmd]; exact onDb_allvs s ref _ hs (exists_vs (c := c) (hq := hq) (hu := hu) (hdb := hs ref) ..)
+  case type_ a0 => simp only [runCmd]; exact onDb_allvs s ref _ hs (type_vs (c := c) (hq := hq) (hu := hu) (hdb := hs ref) ..)
+  case rename a0 a1 a2 => simp only [runCmd]; exact onDb_allvs s ref _ hs (rename_vs (c := c) (hq := hq) (hu := hu) (hdb := hs ref) ..)
+  case sort a0 a1 a2 a3 a4 a5 a6 => simp only [runCmd]; exact onDb_allvs s ref _ hs (sort_vs (c := c) (hq := hq) (hu := hu) (hdb := hs ref) ..)
+  case persist a0 => simp only [runCmd]; exact onDb_allvs s ref _ hs (persist_vs (c := c) (hq := hq) (hu := hu) (hdb := hs ref) ..)
+  case ttl a0 a1 => simp only [runCmd]; exact onDb_allvs s ref _ hs (ttl_vs (c := c) (hq := hq) (hu := hu) (hdb := hs ref) ..)
+  case getbit a0 a1 => simp only [runCmd]; exact onDb_allvs s ref _ hs (getbit_vs (c := c) (hq := hq) (hu := hu) (hdb := hs ref) ..)
+  case setbit a0 a1 a2 => simp only [runCmd]; exact onDb_allvs s ref _ hs (setbit_vs (c := c) (hq := hq) (hu := hu) (hdb := hs ref) ..)
+  case bitcount a0 a1 => simp only [runCmd]; exact onDb_allvs s ref _ hs (bitcount_vs (c := c) (hq := hq) (hu := hu) (hdb := hs ref) ..)
+  case bitpos a0 a1 a2 a3 => simp only [runCmd]; exact onDb_allvs s ref _ hs (bitpos_vs (c := c) (hq := hq) (hu := hu) (hdb := hs ref) ..)
+  case bitop a0 a1 a2 => simp only [runCmd]; exact onDb_allvs s ref _ hs (bitop_vs (c := c) (hq := hq) (hu := hu) (hdb := hs ref) ..)
+  case bitfield a0 a1 a2 => simp only [runCmd]; exact onDb_allvs s ref _ hs (bitfield_vs (c := c) (hq := hq) (hu := hu) (hdb := hs ref) ..)
+  case expire k n u a o => simp only [runCmd]; exact onDb_allvs s ref _ hs (expireat_vs (c := c) (hq := hq) (hu := hu) (hdb := hs ref) ..)
+  case bpop ks l => simp only [runCmd]; exact onDb_allvs s ref _ hs (bpop_vs (c := c) (hq := hq) (hu := hu) (hdb := hs ref) ..)
+  case select i =>
+    simp only [runCmd]
+    split
+    · exact allvs_refl s hs
+    · apply allvs_of_getDb_eq s _ hs
+      intro r
+      simp only [getDb_setSession]
+      exact getDb_tableRef s _ r
+  case flushdb =>
+    simp only [runCmd, hf, Bool.false_eq_true, ↓reduceIte]
+    intro r
+    by_cases e : ((s.tableRef (s.session conn).dbIdx).2 == r) = true
+    · have : (s.tableRef (s.session conn).dbIdx).2 = r := by simpa using e
+      subst this
+      simp only [getDb_setDb_self]
+      rw [getDb_tableRef]
+      exact vs_flushed _
+    · simp only [getDb_setDb_ne _ _ _ _ (by simpa using e)]
+      rw [getDb_tableRef]
+      exact vs_refl _ (hs r)
+  case flushall =>
+    simp only [runCmd, hf, Bool.false_eq_true, ↓reduceIte]
+    intro r
+    have := getDb_flushall s r
+    simp only [flushed] at this
+    rw [this]
+    exact vs_flushed _
+  case watch ks =>
+    simp only [runCmd]
+    split
+    · exact allvs_refl s hs
+    · exact allvs_of_getDb_eq s _ hs (fun r => getDb_setSession _ _ _ r)
+  case unwatch => exact allvs_of_getDb_eq s _ hs (fun r => getDb_setSession _ _ _ r)
+  case hello v =>
+    simp only [runCmd]
+    split
+    · split
+      · exact allvs_refl s hs
+      · exact allvs_of_getDb_eq s _ hs (fun r => getDb_setSession _ _ _ r)
+    · exact allvs_refl s hs
+  case clientSetname nm =>
+    simp only [runCmd]
+    split
+    · exact allvs_refl s hs
+    · exact allvs_of_getDb_eq s _ hs (fun r => getDb_setSession _ _ _ r)
+  case ping o => cases o <;> exact allvs_refl s hs
+  case multi => exact allvs_refl s hs
+  case exec => exact allvs_refl s hs
+  case discard => exact allvs_refl s hs
+  case echo => exact allvs_refl s hs
+  case quit => exact allvs_refl s hs
+  case clientId => exact allvs_refl s hs
+  case clientGetname => exact allvs_refl s hs
+  case clientInfo => exact allvs_refl s hs
+  case clientList => exact allvs_refl s hs
+  case «opaque» => exact allvs_refl s hs
+  case dbsize =>
+    simp only [runCmd]
+    split <;> exact allvs_refl s hs
+  all_goals
+    simp only [runCmd]
+    apply onDb_allvs s ref _ hs
+    have := hs ref
+    versioned
+
+
+/-! ### any history of commands, and what EXEC's check concludes from it -/
+
+theorem vs_trans {a b d : Db} (h1 : VS a b) (h2 : VS b d) : VS a d := ⟨vstep_trans h1.step h2.step, h2.uniq⟩
+
+theorem alookup_of_mem_nodup {α} (l : List (Bytes × α)) (p : Bytes × α) (hp : p ∈ l) (hu : (l.map (·.1)).Nodup) :
+    alookup p.1 l = some p.2 := by
+  induction l with
+  | nil => cases hp
+  | cons q r ih =>
+    obtain ⟨k', v'⟩ := q
+    simp only [List.map_cons, List.nodup_cons] at hu
+    rcases List.mem_cons.mp hp with e | hm
+    · subst e; simp [alookup]
+    · have hne : (k' == p.1) = false := by
+        cases hk : k' == p.1 with
+        | false => rfl
+        | true =>
+          have : k' = p.1 := by simpa using hk
+          exact absurd (List.mem_map.mpr ⟨p, hm, this.symm⟩) hu.1
+      simp only [alookup, hne, Bool.false_eq_true, ↓reduceIte]
+      exact ih hm hu.2
+
+/-- the version invariant travels along `VS` -/
+theorem idInv_of_vs {db db' : Db} (hi : db.IdInv) (h : VS db db') : db'.IdInv := by
+  intro p hp
+  have hr : db'.raw p.1 = some p.2 := alookup_of_mem_nodup db'.keys p hp h.uniq
+  rcases h.step.keys p.1 with e | ⟨e, he, h1, h2⟩ | e
+  · rw [hr] at e
+    have := hi (p.1, p.2) (mem_of_alookup p.1 db.keys p.2 e.symm)
+    have hm := h.step.mono
+    simp only at this; omega
+  · rw [hr] at he
+    cases he
+    omega
+  · rw [hr] at e; cases e
+
+/-- one command of one connection, with the clock it saw -/
+structure Ev where
+  c : Ctx
+  conn : Nat
+  ref : Nat
+  inMulti : Bool
+  cmd : Cmd
+
+/-- the repaired behaviour: the three quirks that touch versions are off -/
+def Ev.repaired (e : Ev) : Prop :=
+  e.c.q.inplaceKeepsVersion = false ∧ e.c.q.unlinkKeepsObject = false ∧ e.c.q.flushDetaches = false
+
+/-- any history: commands of any connections on any databases, in the order the store lock admits them
+    (the body of somebody's EXEC is such a run of commands too) -/
+def runEvents : State → List Ev → State
+  | s, [] => s
+  | s, e :: r => runEvents (runCmd e.c s e.conn e.ref e.inMulti e.cmd).st r
+
+theorem uniq_of_allvs {s s' : State} (h : AllVS s s') : s'.Uniq := fun r => (h r).uniq
+
+theorem runEvents_versions (evs : List Ev) : ∀ (s : State), s.Uniq → (∀ e ∈ evs, e.repaired) →
+    AllVS s (runEvents s evs) := by
+  induction evs with
+  | nil => intro s hs _; exact allvs_refl s hs
+  | cons e r ih =>
+    intro s hs hok
+    have h1 := runCmd_versions e.c s e.conn e.ref e.inMulti e.cmd
+      (hok e List.mem_cons_self).1 (hok e List.mem_cons_self).2.1 (hok e List.mem_cons_self).2.2 hs
+    have h2 := ih _ (uniq_of_allvs h1) (fun e' he' => hok e' (List.mem_cons_of_mem _ he'))
+    intro x
+    exact vs_trans (h1 x) (h2 x)
+
+/-- the invariants of a running server, kept by every history (they hold for the empty server) -/
+structure State.VInv (s : State) : Prop where
+  uniq : s.Uniq
+  ids : ∀ r, (s.getDb r).IdInv
+
+theorem runEvents_vinv (s : State) (evs : List Ev) (h : s.VInv) (hok : ∀ e ∈ evs, e.repaired) :
+    (runEvents s evs).VInv :=
+  have hv := runEvents_versions evs s h.uniq hok
+  ⟨uniq_of_allvs hv, fun r => idInv_of_vs (h.ids r) (hv r)⟩
+
+/-- the version WATCH records for a key: that of the live object, 0 when there is none -/
+def recorded (c : Ctx) (s : State) (ref : Nat) (k : Bytes) : Nat :=
+  match (s.getDb ref).live c.now k with
+  | some e => e.id
+  | none => 0
+
+theorem live_some_raw {db : Db} {now : Int} {k : Bytes} {e : Entry} (h : db.live now k = some e) :
+    db.raw k = some e ∧ e.expired now = false := by
+  unfold Db.live at h
+  split at h
+  · split at h
+    · cases h
+    · rename_i h1 h2
+      cases h
+      exact ⟨h1, by simpa using h2⟩
+  · cases h
+
+/-- **EXEC aborts exactly when the watched key was touched.** Take any reachable state, WATCH a key
+    (recording its version, 0 for a missing or expired key), let any history of commands of any
+    connections run — any number, any kind, in-place updates, deletions, re-creations, flushes — and
+    then perform EXEC's check at any later clock reading: the check passes if and only if the key's
+    live object is exactly what it was at WATCH time — same value, same deadline, same version — or
+    it was absent then and is absent now. A change that is undone (delete and re-create, pop and push
+    back) still aborts, since the re-created object carries a version handed out later. -/
+theorem exec_aborts_iff_watched_key_touched (s : State) (evs : List Ev) (hs : s.VInv)
+    (hok : ∀ e ∈ evs, e.repaired) (c c' : Ctx) (hq : c'.q.inplaceKeepsVersion = false) (ref : Nat) (k : Bytes) :
+    watchChanged c' (runEvents s evs) (ref, k, recorded c s ref k) = false ↔
+      ((runEvents s evs).getDb ref).live c'.now k = (s.getDb ref).live c.now k := by
+  have hv := runEvents_versions evs s hs.uniq hok ref
+  have hi := hs.ids ref
+  have hi' := idInv_of_vs hi hv
+  generalize runEvents s evs = s' at *
+  unfold watchChanged recorded
+  simp only [hq, Bool.false_eq_true, ↓reduceIte]
+  constructor
+  · intro h
+    cases h' : (s'.getDb ref).live c'.now k with
+    | some e' =>
+      rw [h'] at h
+      simp only [bne_eq_false_iff_eq] at h
+      obtain ⟨hr', hx'⟩ := live_some_raw h'
+      have hb' := hi' (k, e') (mem_of_alookup k _ e' hr')
+      cases h0 : (s.getDb ref).live c.now k with
+      | none => rw [h0] at h; simp only at h hb'; omega
+      | some e =>
+        rw [h0] at h
+        simp only at h
+        obtain ⟨hr, hx⟩ := live_some_raw h0
+        have hb := hi (k, e) (mem_of_alookup k _ e hr)
+        rcases hv.step.keys k with e1 | ⟨e1, he1, h1, h2⟩ | e1
+        · rw [hr', hr] at e1; exact e1
+        · rw [hr'] at he1; cases he1; simp only at hb; omega
+        · rw [hr'] at e1; cases e1
+    | none =>
+      rw [h'] at h
+      simp only [bne_eq_false_iff_eq] at h
+      cases h0 : (s.getDb ref).live c.now k with
+      | none => rfl
+      | some e =>
+        rw [h0] at h
+        simp only at h
+        obtain ⟨hr, hx⟩ := live_some_raw h0
+        have hb := hi (k, e) (mem_of_alookup k _ e hr)
+        simp only at hb; omega
+  · intro h
+    rw [h]
+    cases (s.getDb ref).live c.now k <;> simp
+
+/-- the premises are met by the server as it starts, hence (`runEvents_vinv`) by every reachable state -/
+theorem vinv_init : ({} : State).VInv :=
+  ⟨fun r => by simp [State.getDb, Db.Uniq], fun r => by intro p hp; simp [State.getDb] at hp⟩
+
 end RedisEmu
